@@ -318,6 +318,7 @@ def _sa_loop1_inv(s):
                                                          z3.And(val >= lb, val <= ub)),
                                          patterns=[z3.Select(q.v.arrs[0], j)])),
         ("C07.zero_elsewhere", zero_unless_served(s, sch, q, inf, q.len, "l1z")),
+        ("C07.finite_rate_entries_are_levels_or_zero", granted_levels(s, q, inf, sch, 0, q.len, "l1l")),
     ]
 
 
@@ -362,11 +363,37 @@ def lower_bound_vector_infeasible(s, q, inf):
         z3.Not(FEAS(v, n, inf.ref))))
 
 
+def level_or_zero(inf, idx, val):
+    """val is 0 or one of the allowable pilot levels of station idx"""
+    m = z3.Int("m!loz")
+    ap = inf.allowable_pilots.v
+    return z3.Or(val == 0, z3.Exists([m], z3.And(m >= 0, m < z3.Select(ap.arrs[1], idx), z3.Select(z3.Select(ap.arrs[0], idx), m) == val)))
+
+
+def granted_levels(s, q, inf, sch, lo, hi, name):
+    """sessions lo <= j < hi of the list at a finite-rate station hold 0 or one of the station's allowable levels"""
+    j = z3.Int("j!" + name)
+    e = sess_at(s, q, j)
+    idx = st_index(inf, e.station_id)
+    return FA([j], z3.Implies(z3.And(j >= lo, j < hi, z3.Not(z3.Select(inf.is_continuous.v.arrs[0], idx))),
+                              level_or_zero(inf, idx, z3.Select(sch.v.arrs[0], idx))), patterns=[z3.Select(q.v.arrs[0], j)])
+
+
 def _sa_post(old, new, ret):
+    """C07 for one greedy allocation, stated over the sessions as they were handed in (whatever order the sort function put them in)"""
     inf = old.infrastructure
+    q = old.active_sessions
+    iface = old.self._interface
+    j = z3.Int("j!sap")
+    e = sess_at(old, q, j)
+    val = z3.Select(ret.v.arrs[0], st_index(inf, e.station_id))
     return [
         ("C07.schedule_feasible", feas(ret, inf)),
         ("one_entry_per_station", ret.len == inf.station_ids.len),
+        ("C07.every_session_between_its_lower_bound_and_min_of_upper_bound_and_remaining_demand",
+         FA([j], z3.Implies(z3.And(j >= 0, j < q.len), z3.And(val >= lb_of(e), val <= ub_of(old, iface, e))), patterns=[z3.Select(q.v.arrs[0], j)])),
+        ("C07.finite_rate_stations_get_an_allowable_level_or_zero", granted_levels(old, q, inf, ret, 0, q.len, "sapl")),
+        ("C07.stations_without_a_session_get_zero", zero_unless_served(old, ret, q, inf, q.len, "sapz")),
     ]
 
 
@@ -507,7 +534,24 @@ def _rfs_inv(s):
 def _rfs_post(old, new, ret):
     inp, inf = old.active_sessions, old.infrastructure
     a, b, i = z3.Int("a!rfp"), z3.Int("b!rfp"), z3.Int("i!rfp")
-    src, rank = new.src, new.rank
+    from pyvc.symex import Unsupported as _Uns
+    try:
+        src, rank = new.src, new.rank
+    except _Uns:
+        # at a call site the callee's ghost loop variables do not exist: the clauses are taken without their proof hints
+        plain = lambda g: g.goal if isinstance(g, With) else g
+        class _NoGhost:
+            pass
+        src = rank = None
+    if src is None:
+        return [
+            ("C07.kept_sessions_are_unfinished_input_sessions", FA([a], z3.Implies(z3.And(a >= 0, a < ret.len), z3.Exists([i], z3.And(
+                i >= 0, i < inp.len, ty.sel(ret.v.arrs[0], a) == ty.sel(inp.v.arrs[0], i), _unfinished(old, inf, sess_at(old, inp, i), old.period)))),
+                patterns=[ty.sel(ret.v.arrs[0], a)])),
+            ("C07.every_unfinished_session_is_kept", FA([i], z3.Implies(z3.And(i >= 0, i < inp.len, _unfinished(old, inf, sess_at(old, inp, i), old.period)),
+                z3.Exists([a], z3.And(a >= 0, a < ret.len, ty.sel(ret.v.arrs[0], a) == ty.sel(inp.v.arrs[0], i)))), patterns=[ty.sel(inp.v.arrs[0], i)])),
+            ("still_a_valid_session_list", sessions_ok(old, ret, inf, "rfo")),
+        ]
     sa = lambda x: ty.sel(src.v.arrs[0], x)
     rk = lambda x: ty.sel(rank.v.arrs[0], x)
     ghost_kept = FA([a], z3.Implies(z3.And(a >= 0, a < ret.len), z3.And(sa(a) >= 0, sa(a) < inp.len, ty.sel(ret.v.arrs[0], a) == ty.sel(inp.v.arrs[0], sa(a)),
@@ -705,4 +749,184 @@ REG.contract(
                                             mr0_len=s.heap_array("SessionInfo.max_rates#1", z3.IntSort()),
                                             mn0_vals=s.heap_array("SessionInfo.min_rates#0", z3.ArraySort(z3.IntSort(), z3.RealSort())),
                                             mn0_len=s.heap_array("SessionInfo.min_rates#1", z3.IntSort())))},
+)
+
+
+# ============================================================================ the uncontrolled baseline (C08)
+UC = "acnportal.algorithms.uncontrolled_charging.UncontrolledCharging."
+REG.schema("UncontrolledCharging", bases=["BaseAlgorithm"])
+
+
+def _uc_spec(s, iface, q, upto, m):
+    """the mapping m holds, for each of the first `upto` sessions, the one-element list [max pilot of the session's station] under the session's
+    station id, and has no other key"""
+    j = z3.Int("j!uc")
+    k = z3.Const("k!uc", ty.IdSort)
+    e = sess_at(s, q, j)
+    net = iface._simulator.network
+    mp = ty.sel(net.max_pilot_signals.v.arrs[0], net_index(net, e.station_id))
+    mv = m._v
+    return [
+        ("C08.every_active_session_gets_exactly_its_stations_maximum_pilot",
+         FA([j], z3.Implies(z3.And(j >= 0, j < upto), z3.And(z3.Select(mv.dom, e.station_id), z3.Select(mv.arrs[1], e.station_id) == 1,
+                                                            z3.Select(z3.Select(mv.arrs[0], e.station_id), 0) == mp)), patterns=[z3.Select(q.v.arrs[0], j)])),
+        ("C08.no_other_station_gets_anything",
+         FA([k], z3.Implies(z3.Select(mv.dom, k), z3.Exists([j], z3.And(j >= 0, j < upto, e.station_id == k))), patterns=[z3.Select(mv.dom, k)])),
+    ]
+
+
+def _uc_pre(s):
+    from .interface import net_info_wf
+    net = s.self._interface._simulator.network
+    return And(Not(IsNone(s.self._interface)), iface_ok(s, s.self._interface, s.active_sessions, "uci"), net_info_wf(s, net))
+
+
+REG.contract(
+    UC + "schedule", params=dict(self=Ref("UncontrolledCharging"), active_sessions=Seq(Ref("SessionInfo"))), ret=Map(Id, Seq(Real), ordered=True),
+    requires=[C("interface_registered_on_a_network_that_knows_the_sessions_stations", _uc_pre),
+              C("sessions_live", lambda s: AllIdx(0, s.active_sessions.len, lambda j: And(s.active_sessions[j].ref != 0, s.alloc_ref(s.active_sessions[j].ref)), name="ucl"))],
+    modifies=[("InfrastructureInfo." + f, "FRESH") for f in ("constraint_matrix", "constraint_limits", "phases", "voltages", "constraint_ids", "station_ids",
+                                                              "_station_ids_dict", "max_pilot", "min_pilot", "allowable_pilots", "is_continuous")] + ["alloc"],
+    ensures=[C("C08.uncontrolled", lambda old, new, ret: _uc_spec(old, old.self._interface, old.active_sessions, old.active_sessions.len, ret), props=("C08",))],
+    loops={0: LoopSpec(invariant=lambda s: [(t, g) for t, g in _uc_spec(s, s.self._interface, s.active_sessions, s._k, s.schedule)]
+                       + [("wf", _uc_pre(s)), ("keys_wf", __import__("pyvc.maplib", fromlist=["x"]).keys_wf(s.schedule._v))],
+                       locals=dict(schedule=Map(Id, Seq(Real), ordered=True)),
+                       modifies=[("InfrastructureInfo." + f, "FRESH") for f in ("constraint_matrix", "constraint_limits", "phases", "voltages", "constraint_ids",
+                                                                                 "station_ids", "_station_ids_dict", "max_pilot", "min_pilot", "allowable_pilots",
+                                                                                 "is_continuous")] + ["alloc"])},
+)
+
+
+# ============================================================================ post-processing: the array schedule as a mapping (C07 / C04)
+POST = "acnportal.algorithms.postprocessing."
+
+
+def _fas_spec(s, inf, arr, upto, m):
+    i = z3.Int("i!fas")
+    k = z3.Const("k!fas", ty.IdSort)
+    sid = ty.sel(inf.station_ids.v.arrs[0], i)
+    mv = m._v
+    return [
+        ("every_station_gets_the_one_element_list_holding_its_entry",
+         FA([i], z3.Implies(z3.And(i >= 0, i < upto), z3.And(z3.Select(mv.dom, sid), z3.Select(mv.arrs[1], sid) == 1,
+                                                            z3.Select(z3.Select(mv.arrs[0], sid), 0) == ty.sel(arr.v.arrs[0], i))),
+            patterns=[sid])),
+        ("only_registered_stations_are_keys", FA([k], z3.Implies(z3.Select(mv.dom, k), z3.Exists([i], z3.And(i >= 0, i < upto, sid == k))), patterns=[z3.Select(mv.dom, k)])),
+    ]
+
+
+REG.contract(
+    POST + "format_array_schedule", params=dict(array_schedule=Seq(Real), infrastructure=Ref("InfrastructureInfo")), ret=Map(Id, Seq(Real), ordered=True), modifies=[],
+    requires=[C("infrastructure_wf", lambda s: infra_wf(s, s.infrastructure))],
+    raises=[RaiseSpec("InvalidScheduleError", lambda s: s.infrastructure.station_ids.len != s.array_schedule.len, iff=True, unchanged=True)],
+    ensures=[C("C07.format", lambda old, new, ret: _fas_spec(old, old.infrastructure, old.array_schedule, old.infrastructure.station_ids.len, ret), props=("C07", "C04"))],
+    loops={0: LoopSpec(invariant=lambda s: _fas_spec(s, s.infrastructure, s.array_schedule, s._k, s.schedule)
+                       + [("keys_wf", __import__("pyvc.maplib", fromlist=["x"]).keys_wf(s.schedule._v))],
+                       locals=dict(schedule=Map(Id, Seq(Real), ordered=True)))},
+)
+
+
+# ============================================================================ SortedSchedulingAlgo.schedule: the composition for the plain greedy configuration (C07)
+REG.contract(
+    "acnportal.algorithms.base_algorithm.BaseAlgorithm.interface", params=dict(self=Ref("BaseAlgorithm")), ret=Ref("Interface"), modifies=[],
+    raises=[RaiseSpec("ValueError", lambda s: IsNone(s.self._interface), iff=True, unchanged=True)],
+    ensures=[C("registered_interface", lambda old, new, ret: ret.ref == old.self._interface.ref)])
+
+
+def raw_sessions_ok(s, q, net):
+    """what Interface.active_sessions hands to schedule(): live SessionInfo objects at registered stations, one per station, with at least one period of
+    rate bounds, a non-positive first minimum rate (the constructor's default 0) and a non-negative first maximum rate"""
+    j, j2 = z3.Int("j!raw"), z3.Int("j2!raw")
+    e, e2 = sess_at(s, q, j), sess_at(s, q, j2)
+    return And(FA([j], z3.Implies(z3.And(j >= 0, j < q.len),
+                                  z3.And(e.ref != 0, s.alloc_ref(e.ref), z3.Select(net._EVSEs._v.dom, e.station_id), e.min_rates.len >= 1, e.max_rates.len >= 1,
+                                         z3.Select(e.min_rates.v.arrs[0], 0) <= 0, z3.Select(e.max_rates.v.arrs[0], 0) >= 0)), patterns=[z3.Select(q.v.arrs[0], j)]),
+               FA([j, j2], z3.Implies(z3.And(j >= 0, j < j2, j2 < q.len), z3.And(e.station_id != e2.station_id, e.ref != e2.ref)),
+                  patterns=[z3.MultiPattern(z3.Select(q.v.arrs[0], j), z3.Select(q.v.arrs[0], j2))]))
+
+
+def advertised_ok(s, sim):
+    """what the network's cached station descriptions satisfy (C13: every EVSE class advertises a non-negative maximum / minimum pilot, a finite-rate
+    EVSE a strictly increasing list that contains 0; established by ChargingNetwork._update_info_store): needed by the greedy allocation"""
+    net = sim.network
+    n = net._EVSEs.keys.len
+    i, a, b, m = z3.Int("i!adv"), z3.Int("a!adv"), z3.Int("b!adv"), z3.Int("m!adv")
+    ap = net.allowable_rates.v
+    vals, ln = (lambda ii: z3.Select(ap.arrs[0], ii)), (lambda ii: z3.Select(ap.arrs[1], ii))
+    return And(sim.period > 0,
+               FA([i], z3.Implies(z3.And(i >= 0, i < n), z3.And(ty.sel(net.max_pilot_signals.v.arrs[0], i) >= 0, ty.sel(net.min_pilot_signals.v.arrs[0], i) >= 0,
+                                                                ty.sel(net._voltages.v.arrs[0], i) > 0))),
+               FA([i, a, b], z3.Implies(z3.And(i >= 0, i < n, a >= 0, a < b, b < ln(i)), z3.Select(vals(i), a) < z3.Select(vals(i), b)),
+                  patterns=[z3.MultiPattern(z3.Select(vals(i), a), z3.Select(vals(i), b))]),
+               FA([i], z3.Implies(z3.And(i >= 0, i < n, z3.Not(ty.sel(net.is_continuous.v.arrs[0], i))),
+                                  z3.Exists([m], z3.And(m >= 0, m < ln(i), z3.Select(vals(i), m) == 0)))))
+
+
+def rap_sign_axiom():
+    """consequence of the definition of RAPF (proved as lemma C07.remaining_amp_periods_are_non_negative_for_unmet_demand): unmet demand at a positive
+    voltage and period length is a non-negative number of amp-periods"""
+    a, b, v, p = z3.Reals("a!rs b!rs v!rs p!rs")
+    return FA([a, b, v, p], z3.Implies(z3.And(a - b >= 0, v > 0, p > 0), RAPF(a, b, v, p) >= 0), patterns=[RAPF(a, b, v, p)])
+
+
+def _rap_sign_lemma():
+    a, b, v, p = z3.Reals("lem_a lem_b lem_v lem_p")
+    return [("from_the_definition", [rapf_def(a, b, v, p), a - b >= 0, v > 0, p > 0], RAPF(a, b, v, p) >= 0)]
+
+
+REG.lemma("C07.remaining_amp_periods_are_non_negative_for_unmet_demand", _rap_sign_lemma, props=("C07",))
+
+
+def _sched_post(old, new, ret):
+    iface = old.self._interface
+    net = iface._simulator.network
+    n = net._EVSEs.keys.len
+    i = z3.Int("i!sch")
+    mv = ret._v
+    sid = ty.sel(net._EVSEs.keys.v.arrs[0], i)
+    vec = z3.Lambda([i], z3.Select(z3.Select(mv.arrs[0], sid), 0))
+    j = z3.Int("j!sch")
+    e = sess_at(old, old.active_sessions, j)
+    has_session = z3.Exists([j], z3.And(j >= 0, j < old.active_sessions.len, e.station_id == sid))
+    a = z3.Const("a!sch", ArrIReal)
+    inf = z3.Const("inf!sch", RefSort)
+    ii = new.obj(inf, "InfrastructureInfo")
+    net_lim, net_ph = net.magnitudes, net._phase_angles
+    same_table = And(ii.constraint_limits.len == net_lim.len, ii.phases.len == net_ph.len, ii.station_ids.len == n,
+                     FA([i], z3.Implies(z3.And(i >= 0, i < net_lim.len), ty.sel(ii.constraint_limits.v.arrs[0], i) == ty.sel(net_lim.v.arrs[0], i))),
+                     FA([i], z3.Implies(z3.And(i >= 0, i < n), z3.And(ty.sel(ii.phases.v.arrs[0], i) == ty.sel(net_ph.v.arrs[0], i),
+                                                                     ty.sel(ii.station_ids.v.arrs[0], i) == sid))))
+    ub = lambda: None
+    vj = z3.Select(z3.Select(mv.arrs[0], e.station_id), 0)
+    capped = z3.If(ty.sel(net.max_pilot_signals.v.arrs[0], net_index(net, e.station_id)) < z3.Select(old.field_of(e.ref, "SessionInfo", "max_rates").v.arrs[0], 0),
+                   ty.sel(net.max_pilot_signals.v.arrs[0], net_index(net, e.station_id)), z3.Select(old.field_of(e.ref, "SessionInfo", "max_rates").v.arrs[0], 0))
+    return [
+        ("C07.the_pilots_are_a_vector_the_algorithm_side_check_accepts_for_a_description_equal_to_the_networks",
+         z3.Exists([a, inf], z3.And(FEAS(a, n, inf), inf != 0, same_table, FA([i], z3.Implies(z3.And(i >= 0, i < n), z3.Select(z3.Select(mv.arrs[0], sid), 0) == z3.Select(a, i)))))),
+        ("C07.no_session_gets_more_than_its_remaining_demand_its_rate_bound_or_its_stations_maximum_pilot",
+         FA([j], z3.Implies(z3.And(j >= 0, j < old.active_sessions.len), z3.And(vj >= 0, vj <= z3.If(rap(old, iface, e) >= 0, rap(old, iface, e), z3.RealVal(0)), vj <= capped)), patterns=[z3.Select(old.active_sessions.v.arrs[0], j)])),
+        ("C07.a_finite_rate_station_gets_zero_or_one_of_its_advertised_levels",
+         FA([j], z3.Implies(z3.And(j >= 0, j < old.active_sessions.len, z3.Not(ty.sel(net.is_continuous.v.arrs[0], net_index(net, e.station_id)))),
+                            z3.Or(vj == 0, z3.Exists([z3.Int("m!schl")], z3.And(z3.Int("m!schl") >= 0, z3.Int("m!schl") < z3.Select(net.allowable_rates.v.arrs[1], net_index(net, e.station_id)),
+                                                                                z3.Select(z3.Select(net.allowable_rates.v.arrs[0], net_index(net, e.station_id)), z3.Int("m!schl")) == vj)))),
+            patterns=[z3.Select(old.active_sessions.v.arrs[0], j)])),
+        ("C07.one_pilot_for_every_registered_station", FA([i], z3.Implies(z3.And(i >= 0, i < n), z3.And(z3.Select(mv.dom, sid), z3.Select(mv.arrs[1], sid) == 1)), patterns=[sid])),
+        ("C07.stations_without_an_active_session_get_zero", FA([i], z3.Implies(z3.And(i >= 0, i < n, z3.Not(has_session)), z3.Select(vec, i) == 0), patterns=[sid])),
+    ]
+
+
+REG.contract(
+    SA + "schedule", params=dict(self=Ref("SortedSchedulingAlgo"), active_sessions=Seq(Ref("SessionInfo"))), ret=Map(Id, Seq(Real), ordered=True),
+    requires=[C("plain_greedy_configuration", lambda s: And(Not(IsNone(s.self._interface)), Not(s.self.estimate_max_rate), Not(s.self.uninterrupted_charging),
+                                                            Not(s.self.allow_overcharging))),
+              C("network", lambda s: iface_ok(s, s.self._interface, s.active_sessions, "schi")),
+              C("info", lambda s: __import__("contracts.interface", fromlist=["x"]).net_info_wf(s, s.self._interface._simulator.network)),
+              C("sessions", lambda s: raw_sessions_ok(s, s.active_sessions, s.self._interface._simulator.network)),
+              C("network_advertises_sane_values", lambda s: advertised_ok(s, s.self._interface._simulator)),
+              C("definitions", lambda s: __import__("pyvc.dsl", fromlist=["Given"]).Given(z3.BoolVal(True), [rap_sign_axiom()]))],
+    raises=[RaiseSpec("ValueError", lambda s: True, iff=False, unchanged=False)],
+    modifies=[("InfrastructureInfo." + f, "FRESH") for f in ("constraint_matrix", "constraint_limits", "phases", "voltages", "constraint_ids", "station_ids",
+                                                              "_station_ids_dict", "max_pilot", "min_pilot", "allowable_pilots", "is_continuous")]
+             + [("SessionInfo.max_rates", "ALL"), ("SessionInfo.min_rates", "ALL"), "alloc", "warnings"],
+    ensures=[C("C07.schedule", _sched_post, props=("C07",))],
 )
